@@ -301,8 +301,24 @@ func (a *authWorld) send(rng *rand.Rand, endpoint, forge string) (*AReq, string,
 	}
 	if forge == "zero-id" {
 		if wallet {
-			forge, q.Forge = "empty", "empty"
-			sig, garbage = "", true
+			// the all-zero wallet address with a well-formed 65-byte signature from which no key
+			// can be recovered (zero R/S, an impossible recovery id, R and S above the group order)
+			id = "0x" + strings.Repeat("0", 40)
+			idName = "zero-wallet"
+			q.Identity = idName
+			raw := make([]byte, 65)
+			switch rng.Intn(4) {
+			case 0: // all zero
+			case 1:
+				raw[31], raw[63], raw[64] = 1, 1, 5
+			case 2:
+				for k := 0; k < 64; k++ {
+					raw[k] = 0xff
+				}
+			default:
+				raw[31], raw[63], raw[64] = 5, 2, byte(27+rng.Intn(2))
+			}
+			sig, garbage = hex.EncodeToString(raw), true
 		} else {
 			// the all-zero node id (not a curve point) with a well-formed signature that nobody made:
 			// R is not the x-coordinate of a curve point, so no public key can be recovered from it
